@@ -162,6 +162,14 @@ def specStep (st : Unit) (line : String) : Unit × String :=
         else (st, "ok")
       | _, _, _, _, _ => (st, "violates unparsable-output")
     | ["ser", _] => (st, "ok")
+    | ["parsed", _, _] =>
+      -- objects built by the (buffer, size) constructors: whatever header they hold, no helper may hand back a layer
+      -- as a T it is not (the implementation's own dynamic_cast is the judge)
+      if out.startsWith "parsed throw" || out.startsWith "parsed noctor" then (st, "ok") else
+      match kv ow "bad" with
+      | some "-" => (st, "ok")
+      | some b => (st, s!"violates sound-parsed {b.take 160}")
+      | none => (st, "violates unparsable-output")
     | ["counts"] => (st, "ok")
     | _ => (st, "unspecified")
   | _ => (st, "bad-line")
